@@ -134,6 +134,25 @@ fn run_case(seed: u64, lean: &mut Lean, hist: &mut BTreeMap<String, u64>, sample
                     if has && want != s.orig { s.filtered_seen = true; saw_filtered = true; }
                 }
             }
+            15 => {
+                // a batch over several keyspaces (filtered and not): one journal record, applied to each keyspace
+                let mut b = dbref!().batch();
+                let mut spec = vec![];
+                let mut seen = std::collections::BTreeSet::new();
+                for _ in 0..r.range(2, 3) {
+                    let n2 = *r.pick(&names);
+                    let k = r.pick(&keys).clone();
+                    if !seen.insert((n2, k.clone())) { continue; }
+                    let v = vec![b'b', r.below(200) as u8];
+                    b.insert(&kss[n2], k.clone(), v.clone());
+                    st.get_mut(n2).unwrap().insert(k.clone(), KeyState { orig: Some(v.clone()), filtered_seen: false });
+                    spec.push(format!("{}:{}:{}", ids[n2], hex(&k), hex(&v)));
+                }
+                b.commit().unwrap();
+                lean.ask(&format!("kv.op batch {}", spec.join(";")));
+                trace.push(format!("batch {}", spec.join(";")));
+                *hist.entry("batch".into()).or_insert(0) += 1;
+            }
             14 => {
                 // journal rotation: later reopens replay a sealed journal that may straddle a flush
                 if let Err(e) = fjall::verif::verif_rotate_journal(dbref!()) { fail!("impl-vs-oracle", "journal rotation failed: {e:?}"); }
